@@ -277,13 +277,14 @@ pub fn check(prop: &str, tier: &str, seed: i64) -> i32 {
     let t0 = std::time::Instant::now();
     let (known_all, _fixed) = runner::load_known();
     let known: Vec<runner::Known> = known_all.into_iter().filter(|k| k.property == prop).collect();
+    let known2: Vec<runner::Known> = known.iter().map(|k| runner::Known { property: k.property.clone(), scenario: k.scenario.clone(), kind: k.kind.clone(), describe: k.describe.clone() }).collect();
     let known_desc: Vec<(String, String, String)> = known
         .iter()
         .map(|k| (k.scenario.clone(), k.kind.clone(), k.describe.clone()))
         .collect();
 
     let plan = plan(prop, tier);
-    let pure_res = pure::run(prop, tier);
+    let pure_res = pure::run(prop, tier, &known);
     if plan.is_none() && pure_res.is_none() {
         eprintln!("no check for property {}", prop);
         return 2;
@@ -305,11 +306,12 @@ pub fn check(prop: &str, tier: &str, seed: i64) -> i32 {
     let mut assumptions_v = assumptions();
     let mut exhaustive = true;
     let mut nviol = 0usize;
+    let mut known_counts: Vec<u64> = vec![0; known_desc.len()];
 
     if let Some(plan) = plan {
         rule = plan.rule.clone();
         bounds = plan.bounds.clone();
-        let out = runner::run_units(&plan, known);
+        let out = runner::run_units(&plan, known2);
         for (name, s) in out.agg.scen.iter() {
             evaluations += s.executions;
             states += s.hashes.len() as u64;
@@ -339,12 +341,8 @@ pub fn check(prop: &str, tier: &str, seed: i64) -> i32 {
         for (k, n) in out.agg.foreign.iter() {
             println!("NOTE: violation of another property observed {} time(s): {}", n, k);
         }
-        for (i, (scen, kind, desc)) in known_desc.iter().enumerate() {
-            let hits = out.agg.known_hits.get(&i).copied().unwrap_or(0);
-            known_lines.push(format!(
-                "KNOWN-FINDING: property={} {} [{} {}; reproduced in {} execution(s) of this run]",
-                prop, desc, scen, kind, hits
-            ));
+        for (i, n) in out.agg.known_hits.iter() {
+            known_counts[*i] += n;
         }
         for f in out.agg.found.iter() {
             nviol += 1;
@@ -381,16 +379,8 @@ pub fn check(prop: &str, tier: &str, seed: i64) -> i32 {
         } else {
             bounds["grid"] = pr.bounds.clone();
         }
-        for (i, (scen, kind, desc)) in known_desc.iter().enumerate() {
-            let _ = i;
-            let hits = pr.known_hits.iter().filter(|(s, k)| s == scen && k == kind).count();
-            if hits > 0 || !known_lines.iter().any(|l| l.contains(desc.as_str())) {
-                known_lines.retain(|l| !l.contains(desc.as_str()));
-                known_lines.push(format!(
-                    "KNOWN-FINDING: property={} {} [{} {}; reproduced in {} case(s) of this run]",
-                    prop, desc, scen, kind, hits
-                ));
-            }
+        for i in pr.known_hits.iter() {
+            known_counts[*i] += 1;
         }
         for v in pr.violations.iter() {
             nviol += 1;
@@ -434,6 +424,12 @@ pub fn check(prop: &str, tier: &str, seed: i64) -> i32 {
         serde_json::to_string_pretty(&evidence).unwrap(),
     );
 
+    for (i, (scen, kind, desc)) in known_desc.iter().enumerate() {
+        known_lines.push(format!(
+            "KNOWN-FINDING: property={} {} [{} {}; reproduced {} time(s) in this run]",
+            prop, desc, scen, kind, known_counts[i]
+        ));
+    }
     for l in known_lines {
         println!("{}", l);
     }
